@@ -496,6 +496,29 @@ def rule_fresh_ctx(ctx, px, ts):
     # the template object comes from env.get_template(name) - no module-level context reuse (make_module/ shared)
     bad = [c for c in ast.walk(f.node) if isinstance(c, ast.Call) and isinstance(c.func, ast.Attribute) and c.func.attr in ("make_module", "new_context")]
     ctx.ob(R, f.module.rel, f"{f.short} :: no shared template module/context", not bad, "", f.node.lineno)
+    # compiled templates live in the environment that compiled them: one environment per generator object, no byte-code cache
+    # that outlives it (compiled code carries the compiling run's whitespace settings and constant-folded filter results)
+    e = px.func("nunavut.jinja.environment", "CodeGenEnvironment.__init__")
+    sup = [c for c in ast.walk(e.node) if isinstance(c, ast.Call) and ast.unparse(c.func) == "super().__init__"]
+    if not sup:
+        raise AnalysisError("anchor missing: super().__init__ in CodeGenEnvironment.__init__")
+    kws = {k.arg: ast.unparse(k.value) for k in sup[0].keywords}
+    ok = kws.get("bytecode_cache", "None") == "None" and None not in kws
+    ctx.ob(R, e.module.rel, f"{e.short} :: compiled templates are not cached beyond the environment", ok,
+           "" if ok else f"bytecode_cache={kws.get('bytecode_cache')}: byte code compiled by an earlier run (other whitespace settings, other folded constants) is reused", sup[0].lineno)
+    gi = px.func(GEN_MOD, "CodeGenerator.__init__")
+    bc = px.func("nunavut.jinja.environment", "CodeGenEnvironmentBuilder.create")
+    fresh_create = all(isinstance(r.value, ast.Call) and ast.unparse(r.value.func) == "CodeGenEnvironment" for r in ast.walk(bc.node) if isinstance(r, ast.Return)) \
+        and not any("cache" in d for d in bc.decorators)
+    made = []
+    for n in ast.walk(gi.node):
+        if isinstance(n, ast.Assign) and isinstance(n.value, ast.Call):
+            v = ast.unparse(pyfront.subst_locals(gi.node, n.value))
+            if v.startswith("CodeGenEnvironment(") or (v.startswith("CodeGenEnvironmentBuilder(") and v.endswith(".create()") and fresh_create):
+                made.append(n)
+    ok = len(made) == 1 and ast.unparse(made[0].targets[0]).startswith("self.")
+    ctx.ob(R, gi.module.rel, f"{gi.short} :: every generator builds its own environment", ok,
+           "" if ok else "the template environment is not a fresh per-generator object", gi.node.lineno)
     N = ts.nodes
     shared = {"nunavut", "options", "ln", "uses_queries"}
     n = 0
